@@ -544,6 +544,9 @@ class CWorld:
     def op_data(self, op):
         if T.is_into_own_subtree(op):
             return "excluded"
+        if T.hdf5_abs_dest_quirk(self.ref, op):
+            self.probe("excluded_hdf5_abs_dest_quirk")
+            return "excluded"
         d0 = V.dump_tree(self.ref)[0]
         _steps["limit"] = 12 * (len(d0) + sum(len(e[-1]) for e in d0.values()) + 3 * sum(len(m) for m in self.meta.values())) + 80
         kwargs = {}
@@ -1151,6 +1154,9 @@ def op_pack(w, op):
     with open(fpath, "wb") as f:
         f.write(data)
     marker = data == b"\x7f"
+    if marker and "/" in target.strip("/"):
+        # keep the realignment after the marker probe simple: no intermediate groups
+        target = target.strip("/").rsplit("/", 1)[-1]
     wrapped = np.void(data) if len(data) else w.h5py.Empty("b")
     try:
         w.ref[base].create_dataset(target, data=wrapped)
